@@ -50,6 +50,23 @@ Example C18_shape_example :
   Forall axis_ok [SAStar "batch"; SAConst "rgb" 3; SAExpr (SBin MUL (SVar "h") (SBin DIV (SVar "w") (SLit 2))); SAExpr (SLit 4)].
 Proof. split; [reflexivity|]. repeat constructor; simpl; auto; lia. Qed.
 
+(* "Arithmetic on constant or anonymous axes is refused with TypeError": an operator application yields a tree exactly when
+   both operands are operable (axes, computed axes, groups, plain ints - not two plain ints, which is Python's own
+   arithmetic), and TypeError exactly when one of them is a ConstantAxis or an AnonymousAxis *)
+Theorem C18_constant_axes_refused : forall o l r,
+  (mk_bin o l r = Err TypeErr <-> operable l && operable r = false) /\
+  (forall a, mk_isqrt a = Err TypeErr <-> operable a = false) /\
+  (forall a b, mk_fun2 o a b = Err TypeErr <-> operable a && operable b = false).
+Proof.
+  intros o l r. split; [|split].
+  - destruct l, r; simpl; split; intros H; try reflexivity; try discriminate.
+  - intros a. destruct a; simpl; split; intros H; try reflexivity; try discriminate.
+  - intros a b. destruct a, b; simpl; split; intros H; try reflexivity; try discriminate.
+Qed.
+Theorem C18_operable_build : forall o l r a b, as_operand l = Ok a -> as_operand r = Ok b ->
+  (forall x y, l = OInt x -> r = OInt y -> False) -> mk_bin o l r = Ok (SBin o a b).
+Proof. intros o l r a b Hl Hr Hn. destruct l, r; simpl in *; try discriminate; try (exfalso; eapply Hn; reflexivity); congruence. Qed.
+
 (* source tie: _PRECEDENCE, the constant folding formulas and the printed operators of the symbolic classes as
    TRANSLATED from /repo's _symbolic_expressions.py on this run (coq/gen/GenSrc.v) are the model's *)
 Theorem C18_source_tables : symbolic_tables_agree.
@@ -57,4 +74,5 @@ Proof. exact symbolic_tables. Qed.
 
 Redirect "C18.assumptions.1" Print Assumptions C18_symbolic.
 Redirect "C18.assumptions.3" Print Assumptions C18_source_tables.
+Redirect "C18.assumptions.4" Print Assumptions C18_constant_axes_refused.
 Redirect "C18.assumptions.2" Print Assumptions C18_shape.
